@@ -147,6 +147,23 @@ def byte_cover_check(name, rows):
         viol.append({"what": "%s: byte values %s never occurred in %d random bytes" % (name, [hex(x) for x in miss[:6]], len(data))})
 
 
+def nibble_cover_check(name, rows):
+    """per position: every value 0..15 of the high and of the low nibble of every byte position occurs (rows of one length).
+    Applied only when a uniform source misses some (position, value) with probability < 2^-60 (union bound):
+    32 L (15/16)^n < 2^-60.  Catches formatting that drops leading zeros or pads on one side (first nibble never 0)."""
+    if not rows:
+        return
+    L, n = len(rows[0]), len(rows)
+    if any(len(r) != L for r in rows) or n < (60 * math.log(2) + math.log(32 * L)) / -math.log(15 / 16) + 1:
+        return
+    stats["nibble_cover_tests"] = stats.get("nibble_cover_tests", 0) + 1
+    for pos in range(L):
+        for shift, part in ((4, "high"), (0, "low")):
+            miss = sorted(set(range(16)) - {(r[pos] >> shift) & 15 for r in rows})
+            if miss:
+                viol.append({"what": "%s: %s nibble of byte %d never took the value(s) %s in %d calls" % (name, part, pos, ["%X" % m for m in miss], n)})
+
+
 def call_sequences():
     """the freshness workload: (name, thunk) whose outputs carry >= 128 bits of fill"""
     pan = "4000001234567899"
@@ -214,6 +231,7 @@ for _ in range(N):
 bit_freq_check("format 4 PIN field tail", rows)
 byte_stat_check("format 4 PIN field tail", rows)
 byte_cover_check("format 4 PIN field tail", rows)
+nibble_cover_check("format 4 PIN field tail", rows)
 stats["format4_field"] = N
 rows = []
 for _ in range(N // 2):
@@ -230,6 +248,7 @@ for _ in range(N // 2):
         derivation["mismatch"].append({"what": "format 4 block: the deciphered PIN field tail is not the OS bytes drawn in the call",
                                        "os_bytes": LAST[0].hex(), "tail": pf[8:].hex()})
 bit_freq_check("format 4 block tail", rows)
+nibble_cover_check("format 4 block tail", rows)
 stats["format4_block"] = N // 2
 # ---------------------------------------------------------------- TR-31 key padding
 consumption = {}     # (version, padding length) -> {OS bytes drawn: calls}
@@ -287,6 +306,7 @@ for v in "ABCD":
         bit_freq_check("TR-31 %s key padding %s" % (v, gk), rows)
         byte_stat_check("TR-31 %s key padding %s" % (v, gk), rows)
         byte_cover_check("TR-31 %s key padding %s" % (v, gk), rows)
+        nibble_cover_check("TR-31 %s key padding %s" % (v, gk), rows)
     stats["tr31_" + v] = N
 for (v, plen), by_drawn in sorted(consumption.items()):
     if len(by_drawn) > 1:
